@@ -241,6 +241,12 @@ class AddInitializersToInputsPass(ir.passes.InPlacePass):
             inputs_set = set(graph.inputs)
             for initializer in graph.initializers.values():
                 if initializer not in inputs_set:
+                    # A graph input needs a type: take it from the tensor when the value has none
+                    if initializer.const_value is not None:
+                        if initializer.type is None:
+                            initializer.type = ir.TensorType(initializer.const_value.dtype)
+                        if initializer.shape is None:
+                            initializer.shape = initializer.const_value.shape  # type: ignore[assignment]
                     graph.inputs.append(initializer)
                     count += 1
         logger.info("Added %s initializers to graph inputs", count)
